@@ -3,7 +3,7 @@
    Batch/Store.v (store, per-batch database session, handlers); tied to
    kmip/services/server/engine.py by harness/c08.py on every run. *)
 From Coq Require Import ZArith List Bool.
-From PK Require Import Batch.Generic Batch.GenericProofs Batch.Store Batch.StoreProofs.
+From PK Require Import Batch.Generic Batch.GenericProofs Batch.Store Batch.StoreProofs Batch.Session Batch.SessionProofs.
 Import ListNotations.
 Open Scope Z_scope.
 
@@ -160,3 +160,40 @@ Theorem late_guard_would_leave_trace :
                  option_map o_state (lookup 1 demo_store) = Some S_DEACT.
 Proof. exact late_guard_leaves_trace. Qed.
 Print Assumptions late_guard_would_leave_trace.
+
+(* ---- the session layer (kmip/services/server/session.py): what the client is actually sent ----
+   Full statement: an error answer means the store is as it was. *)
+Definition no_unreported_effect_session_statement : Prop := session_no_unreported_effect_statement.
+
+(* Refuted by the RESPONSE_TOO_LARGE substitution: a Create with Maximum Response Size 1 is
+   executed, committed and answered with an error (known finding
+   C08-response-too-large-after-effect; replayed on the real session on every run). *)
+Theorem no_unreported_effect_session_refuted : ~ no_unreported_effect_session_statement.
+Proof. exact session_no_unreported_effect_refuted_lemma. Qed.
+Print Assumptions no_unreported_effect_session_refuted.
+
+(* Partial: every error answer other than that substitution leaves the store untouched ... *)
+Theorem no_unreported_effect_session_partial : forall st h max size its a st',
+    session_answer st h max size its = (a, st') -> answer_is_error a = true -> a <> ATooLarge -> st' = st.
+Proof. exact session_error_no_effect_partial. Qed.
+Print Assumptions no_unreported_effect_session_partial.
+
+(* ... the substitution happens exactly when the batch ran and its encoding exceeds the maximum ... *)
+Theorem too_large_exactly_when : forall st h max size its st',
+    session_answer st h max size its = (ATooLarge, st') <->
+    (exists rs, process st h its = (inr rs, st')) /\ effective_max max < size.
+Proof. exact session_too_large_iff. Qed.
+Print Assumptions too_large_exactly_when.
+
+(* ... and a response that fits reaches the client as the engine built it. *)
+Theorem fitting_response_is_passed_on : forall st h max size its rs st',
+    size <= effective_max max -> process st h its = (inr rs, st') ->
+    session_answer st h max size its = (AResults rs, st').
+Proof. exact session_fits. Qed.
+Print Assumptions fitting_response_is_passed_on.
+
+Example session_partial_hypotheses_satisfiable :
+  exists a st', session_answer demo_store demo_header None 100
+                  [Build_item 1 (Some [1]) (BCreate true false true true true true [] [] None);
+                   Build_item 24 None (BReadOnly (1,0))] = (a, st') /\ answer_is_error a = true /\ a <> ATooLarge.
+Proof. eexists. eexists. vm_compute. repeat split. discriminate. Qed.
